@@ -1,0 +1,11 @@
+//go:build verif
+
+package hc
+
+// Contracts for package hc, checked by /verif (govc). Comment-only file: it adds no declarations.
+
+// Start is verified only up to its first go statement (goroutines are outside govc's subset). That prefix contains the
+// registration of /resource, which must be wrapped by Authenticate (C01; precondition of ServeMux.Handle).
+//@ func (t *ipTransport) Start()
+//@   requires t != nil && t.config != nil
+//@   modifies heap
